@@ -448,6 +448,19 @@ func genWire(c *core.Ctx) {
 			bad[0] = 0 // first frame partial instead of complete
 			addWireCase(c, &wireCase{Data: lit(bad), Op: "ops", Ops: ops}, "typed")
 		}
+		// the message ends with an EMPTY end-of-message frame, and its last field has no
+		// terminator: only the EOM flag of the empty frame ends the read
+		for _, cutEnd := range []int{0, 1, 9} {
+			p2 := payload[:len(payload)-cutEnd]
+			if ops[0].Op == "str" {
+				p2 = []byte("no terminator here")
+				if cutEnd > 0 {
+					p2 = p2[:len(p2)-cutEnd]
+				}
+			}
+			addWireCase(c, &wireCase{Data: lit(msgFrames(p2, []int{len(p2)})), Op: "ops", Ops: ops, Note: "empty EOM frame"}, "typed")
+			addWireCase(c, &wireCase{Data: lit(msgFrames(p2, []int{len(p2) / 2, len(p2), len(p2)})), Op: "ops", Ops: ops, Note: "empty partial + empty EOM frame"}, "typed")
+		}
 		for _, cnt := range []int64{1 << 20, 1 << 62} {
 			if ops[0].family() == "classad" {
 				addWireCase(c, &wireCase{Data: lit(msgFrames(i64(cnt), nil)), Op: "ops", Ops: ops, Note: "count only"}, "typed")
